@@ -325,10 +325,23 @@ def _run_hypothesis(sc, st, n, seed, tier, known_active, shrink_s):
 
 # ---------------------------------------------------------------------------
 
+def _replay_task(args):
+    """Replay one witness file in a worker (witnesses are replayed with exclusions OFF so that they exercise the oracle)."""
+    _, prop, path = args[:3]
+    _import_prop(prop)
+    with open(path) as f:
+        doc = json.load(f)
+    sc = REGISTRY[prop][doc["subcheck"]]
+    if sc.setup:
+        sc.setup()
+    status, ctx, info = execute(sc, doc["case"], frozenset())
+    return ("__replay__", path, status, info, sorted(ctx.labels), ctx.is_nontrivial)
+
+
 def _child(conn, args, curfile):
     _CURRENT["path"] = curfile
     try:
-        res = _worker(args)
+        res = _replay_task(args) if args[0] == "__replay__" else _worker(args)
         conn.send(res)
     finally:
         conn.close()
@@ -454,6 +467,7 @@ def run_property(prop, tier, seed, only=None, procs=None, scale=1.0):
     rdir = os.path.join(REPLAYS, prop)
     replay_files = sorted(fn for fn in (os.listdir(rdir) if os.path.isdir(rdir) else []) if fn.endswith(".json"))
     n_replayed = 0
+    rtasks, rdocs = [], {}
     for fn in replay_files:
         path = os.path.join(rdir, fn)
         with open(path) as f:
@@ -464,9 +478,6 @@ def run_property(prop, tier, seed, only=None, procs=None, scale=1.0):
         if sc is None:
             harness_errors.append("replay %s names unknown sub-check %s" % (fn, doc["subcheck"]))
             continue
-        if sc.setup:
-            sc.setup()
-        expect = doc.get("expect", "pass")
         if doc.get("bucket") == "crash":
             # a saved interpreter crash is replayed in its own process
             rc = _replay_subprocess(prop, path)
@@ -475,8 +486,19 @@ def run_property(prop, tier, seed, only=None, procs=None, scale=1.0):
             if rc not in (0,):
                 violations.append((doc["subcheck"], path, "saved crash witness fails again (exit %s)" % rc))
             continue
-        # witnesses are replayed with exclusions OFF so that they exercise the oracle
-        status, ctx, info = execute(sc, doc["case"], frozenset())
+        rdocs[path] = (fn, doc)
+        rtasks.append(("__replay__", prop, path))
+    rresults, rcrashes, rtimeouts = _schedule(rtasks, procs, tier) if rtasks else ([], [], [])
+    for key, sig, case in rcrashes:
+        harness_errors.append("a replay worker died with signal %s (%s)" % (sig, key[1]))
+    for key, case in rtimeouts:
+        harness_errors.append("a replay worker made no progress within the wall-clock guard (%s)" % (key[1],))
+    reported_known = set()
+    for _, path, status, info, labels, nontriv in sorted(rresults, key=lambda r: r[1]):
+        fn, doc = rdocs[path]
+        expect = doc.get("expect", "pass")
+        ctx = Ctx(frozenset())
+        ctx.labels, ctx.is_nontrivial = set(labels), nontriv
         replay_stats.note(doc["case"], "ok" if status == "violation" and expect != "pass" else status, ctx, info)
         n_replayed += 1
         if expect.startswith(("known:", "finding:")):
@@ -486,7 +508,9 @@ def run_property(prop, tier, seed, only=None, procs=None, scale=1.0):
                 harness_errors.append("replay %s expects unknown finding %s" % (fn, fid))
             elif entry.get("status") == "known":
                 if status == "violation":
-                    known_lines.append("KNOWN-FINDING: property=%s %s %s" % (prop, fid, entry.get("what", "")))
+                    if fid not in reported_known:
+                        reported_known.add(fid)
+                        known_lines.append("KNOWN-FINDING: property=%s %s %s" % (prop, fid, entry.get("what", "")))
                 else:
                     print("NOTE: witness %s of known finding %s no longer fails (status=%s); entry should become 'fixed'" % (fn, fid, status))
             else:  # fixed: suppresses nothing
